@@ -474,6 +474,10 @@ def apply(ex, ctx, st, f, args, dest_ty, term):
         base = args[0]
         ix = args[1]
         arr = ex.load(st, base)
+        if ty_of(arr) == 'str':
+            okc = mk_call('is_char_boundary_range', (arr, ix if ix[0] != 'agg' else agg(('tuple',), ix[2])), 'bool')
+            ex.obligations.append(Obligation(key, line, 'str slice on a char boundary', okc, st.gstack, [arr], tuple(ex.fn_stack)))
+            return mk_call('str_slice', (arr, ix if ix[0] != 'agg' else agg(('tuple',), ix[2])), 'str'), st
         if arr[0] not in ('agg',):
             raise Uncertified("Index on %s" % arr[0])
         n = len(arr[2])
@@ -534,11 +538,15 @@ def apply(ex, ctx, st, f, args, dest_ty, term):
             ex.store(st, itref, mk('agg', k, (s_, C(pos[1] + 1, 'usize'))))
             has = mk_call('has_char', (s_, pos), 'bool')
             return mk_ite(has, option_some(mk_call('char_at', (s_, pos), 'char')), OPTION_NONE), st
-        if k[0] == 'model' and k[1] == 'SplitWs':
+        if k[0] == 'model' and k[1] in ('SplitWs', 'SplitAsciiWs'):
             s_, pos = it[2]
             ex.store(st, itref, mk('agg', k, (s_, C(pos[1] + 1, 'usize'))))
-            has = mk_call('has_token', (s_, pos), 'bool')
-            return mk_ite(has, option_some(mk_call('token', (s_, pos), 'str')), OPTION_NONE), st
+            pre = '' if k[1] == 'SplitWs' else 'ascii_'
+            if ex.max_tokens is not None and pos[1] >= ex.max_tokens:
+                ex.bounded.append(('tokens', ex.max_tokens))
+                return OPTION_NONE, st
+            has = mk_call('has_' + pre + 'token', (s_, pos), 'bool')
+            return mk_ite(has, option_some(mk_call(pre + 'token', (s_, pos), 'str')), OPTION_NONE), st
         if k[0] == 'adt' and k[1] == 'core::ops::Range':
             lo, hi = it[2]
             if lo[0] == 'c' and hi[0] == 'c':
@@ -621,6 +629,14 @@ def apply(ex, ctx, st, f, args, dest_ty, term):
         return m_iter('Chars', args[0], C(0, 'usize')), st
     if path == 'core::str::<impl str>::split_whitespace':
         return m_iter('SplitWs', args[0], C(0, 'usize')), st
+    if path == 'core::str::<impl str>::split_ascii_whitespace':
+        return m_iter('SplitAsciiWs', args[0], C(0, 'usize')), st
+    if path == 'core::str::<impl str>::len':
+        return mk_call('str_len', (args[0],), 'usize'), st
+    if path == 'core::str::<impl str>::is_empty':
+        return mk_bin('Eq', mk_call('str_len', (args[0],), 'usize'), C(0, 'usize'), 'usize', 'bool'), st
+    if path == 'core::str::<impl str>::as_bytes' or path == 'core::str::<impl str>::bytes':
+        raise Uncertified("byte-level access to text (no contract model: positions are bytes, not characters)")
 
     raise Uncertified("no contract model for foreign callee %s" % path)
 
